@@ -47,10 +47,12 @@ class C03(Machine):
         size = None
         if limited:
             size = rng.choice([1, 2, 3, 4, 5, 6])
+        # a level / stack limit may also be given: if the call still reports completion
+        # (True) the diagram must be complete
         if s == "bfs":
-            return {"op": "bfs", "node": None, "level": None, "size": size}
+            return {"op": "bfs", "node": None, "level": rng.choice([None, None, None, 0, 1, 2, 3]), "size": size}
         if s == "dfs":
-            return {"op": "dfs", "node": None, "stack": None, "size": size}
+            return {"op": "dfs", "node": None, "stack": rng.choice([None, None, None, 0, 1, 2, 3]), "size": size}
         if s == "minimal":
             return {"op": "minimal", "node": None, "size": size, "skip": o["skip_ignored"]}
         if s == "attr_seeds":
